@@ -90,20 +90,34 @@ func (m *memoConn) Invoke(ctx context.Context, method string, args any, reply an
 		return m.cc.Invoke(ctx, method, args, reply, opts...)
 	}
 	key := method + "\x00" + string(reqBytes)
+	sc := scopeOf(ctx)
+	memoKey := key
+	if sc != nil && sc.w != nil && sc.w.id != 0 {
+		// another world = another service: its answers are memoised separately
+		memoKey = fmt.Sprintf("w%d\x00%s", sc.w.id, key)
+	}
 	m.mu.Lock()
 	if m.entries == nil {
 		m.entries = map[string]*memoEntry{}
 	}
-	e := m.entries[key]
+	e := m.entries[memoKey]
 	if e == nil {
 		e = &memoEntry{}
-		m.entries[key] = e
+		m.entries[memoKey] = e
 	}
 	m.mu.Unlock()
 	first := false
 	e.once.Do(func() {
 		first = true
+		if sc != nil && sc.w.fails(method) {
+			e.err = status.Error(codes.Unavailable, "c20: injected failure of "+method)
+			return
+		}
 		e.err = m.cc.Invoke(ctx, method, args, reply, opts...)
+		if e.err == nil && sc != nil {
+			// the world's service data: a deterministic function of (world, method, request)
+			sc.w.mutate(method, key, out)
+		}
 		if e.err == nil {
 			e.resp, e.err = proto.MarshalOptions{Deterministic: true}.Marshal(out.Interface())
 		}
@@ -112,10 +126,14 @@ func (m *memoConn) Invoke(ctx context.Context, method string, args any, reply an
 		// a call cancelled because a sibling RPC of the same Load failed says nothing about the
 		// service: do not memoise it
 		m.mu.Lock()
-		if m.entries[key] == e {
-			delete(m.entries, key)
+		if m.entries[memoKey] == e {
+			delete(m.entries, memoKey)
 		}
 		m.mu.Unlock()
+		if !first && ctx.Err() == nil && retriesOf(ctx) < 3 {
+			// concurrent Loads: the cancellation belongs to the Load that made the call first, not to this one
+			return m.Invoke(withRetry(ctx), method, args, reply, opts...)
+		}
 	}
 	if e.err == nil && !first {
 		proto.Reset(out.Interface())
@@ -123,10 +141,29 @@ func (m *memoConn) Invoke(ctx context.Context, method string, args any, reply an
 			return uerr
 		}
 	}
+	call := rpcCall{method: method, key: key, reply: out, err: e.err, hit: !first}
+	if sc != nil {
+		// a Load that carries its own scope (history / concurrent cases) records into it
+		sc.mu.Lock()
+		sc.log = append(sc.log, call)
+		sc.mu.Unlock()
+		return e.err
+	}
 	m.mu.Lock()
-	m.log = append(m.log, rpcCall{method: method, key: key, reply: out, err: e.err, hit: !first})
+	m.log = append(m.log, call)
 	m.mu.Unlock()
 	return e.err
+}
+
+type retryKey struct{}
+
+func retriesOf(ctx context.Context) int {
+	n, _ := ctx.Value(retryKey{}).(int)
+	return n
+}
+
+func withRetry(ctx context.Context) context.Context {
+	return context.WithValue(ctx, retryKey{}, retriesOf(ctx)+1)
 }
 
 func (m *memoConn) NewStream(ctx context.Context, desc *grpc.StreamDesc, method string, opts ...grpc.CallOption) (grpc.ClientStream, error) {
@@ -262,23 +299,20 @@ func panicFrame(stack string) string {
 	return ""
 }
 
-// loadDirect: client operation -> the planner's print-kit normalisation (extract variables, inline
-// fragment spreads, remove fragment definitions / unused variables) + validation -> print -> parse
-// -> NewDataSource -> Load. This is exactly what graphql_datasource.Planner.ConfigureFetch does
-// with an upstream operation.
-func (r *rig) loadDirect(query, variables string, fed []fedConfig) (res loadResult) {
-	defer func() {
-		if p := recover(); p != nil {
-			st := string(debug.Stack())
-			res.stage = "panic"
-			res.detail = fmt.Sprint(p)
-			res.panicStack = st
-			res.calls = r.conn.takeLog()
-		}
-	}()
+// prepared is a client operation after the planner's print-kit normalisation: the upstream
+// operation text the datasource is planned for and the variables it is loaded with.
+type prepared struct {
+	printed string
+	vars    string
+	fed     []fedConfig
+}
+
+// prepare: client operation -> the planner's print-kit normalisation (extract variables, inline
+// fragment spreads, remove fragment definitions / unused variables) + validation -> print.
+func (r *rig) prepare(query, variables string, fed []fedConfig) (*prepared, *loadResult) {
 	doc, rep := astparser.ParseGraphqlDocumentString(query)
 	if rep.HasErrors() {
-		return loadResult{stage: "generator", detail: "parse: " + rep.Error()}
+		return nil, &loadResult{stage: "generator", detail: "parse: " + rep.Error()}
 	}
 	doc.Input.Variables = []byte(variables)
 	var report operationreport.Report
@@ -290,45 +324,94 @@ func (r *rig) loadDirect(query, variables string, fed []fedConfig) (res loadResu
 	)
 	norm.NormalizeOperation(&doc, &r.schema, &report)
 	if report.HasErrors() {
-		return loadResult{stage: "generator", detail: "normalize: " + report.Error()}
+		return nil, &loadResult{stage: "generator", detail: "normalize: " + report.Error()}
 	}
 	validator := astvalidation.DefaultOperationValidator()
 	validator.RegisterRule(astvalidation.ValidateEmptySelectionSets())
 	validator.Validate(&doc, &r.schema, &report)
 	if report.HasErrors() {
-		return loadResult{stage: "generator", detail: "validate: " + report.Error()}
+		return nil, &loadResult{stage: "generator", detail: "validate: " + report.Error()}
 	}
 	printed, err := astprinter.PrintString(&doc)
 	if err != nil {
-		return loadResult{stage: "generator", detail: "print: " + err.Error()}
+		return nil, &loadResult{stage: "generator", detail: "print: " + err.Error()}
 	}
 	vars := string(doc.Input.Variables)
 	if vars == "" {
 		vars = "{}"
 	}
-	opDoc, rep2 := astparser.ParseGraphqlDocumentString(printed)
+	return &prepared{printed: printed, vars: vars, fed: fed}, nil
+}
+
+// newDataSource: print -> parse -> NewDataSource, as graphql_datasource.Planner.ConfigureFetch does.
+func (r *rig) newDataSource(p *prepared) (*grpcdatasource.DataSource, *loadResult) {
+	opDoc, rep2 := astparser.ParseGraphqlDocumentString(p.printed)
 	if rep2.HasErrors() {
-		return loadResult{stage: "generator", detail: "reparse: " + rep2.Error(), normalized: printed}
+		return nil, &loadResult{stage: "generator", detail: "reparse: " + rep2.Error(), normalized: p.printed}
 	}
 	var fc plan.FederationFieldConfigurations
-	for _, f := range fed {
+	for _, f := range p.fed {
 		fc = append(fc, plan.FederationFieldConfiguration{TypeName: f.typeName, FieldName: f.fieldName, SelectionSet: f.selectionSet})
 	}
-	r.conn.takeLog()
 	ds, err := grpcdatasource.NewDataSource(grpcdatasource.NewGRPCTransport(r.conn), grpcdatasource.DataSourceConfig{
 		Operation: &opDoc, Definition: &r.schema, SubgraphName: "Products", Compiler: r.compiler, Mapping: r.mapping, FederationConfigs: fc,
 	})
 	if err != nil {
-		return loadResult{stage: "plan", detail: err.Error(), normalized: printed}
+		return nil, &loadResult{stage: "plan", detail: err.Error(), normalized: p.printed}
 	}
+	return ds, nil
+}
+
+func loadInput(printed, vars string) []byte {
 	qb, _ := jsonMarshalString(printed)
-	input := `{"method":"POST","url":"","body":{"query":` + qb + `,"variables":` + vars + `}}`
-	out, err := ds.Load(context.Background(), nil, []byte(input))
+	return []byte(`{"method":"POST","url":"","body":{"query":` + qb + `,"variables":` + vars + `}}`)
+}
+
+// loadDirect: client operation -> prepare -> NewDataSource -> Load. This is exactly what
+// graphql_datasource.Planner.ConfigureFetch does with an upstream operation.
+func (r *rig) loadDirect(query, variables string, fed []fedConfig) (res loadResult) {
+	defer func() {
+		if p := recover(); p != nil {
+			st := string(debug.Stack())
+			res.stage = "panic"
+			res.detail = fmt.Sprint(p)
+			res.panicStack = st
+			res.calls = r.conn.takeLog()
+		}
+	}()
+	p, fail := r.prepare(query, variables, fed)
+	if fail != nil {
+		return *fail
+	}
+	r.conn.takeLog()
+	ds, fail := r.newDataSource(p)
+	if fail != nil {
+		return *fail
+	}
+	out, err := ds.Load(context.Background(), nil, loadInput(p.printed, p.vars))
 	calls := r.conn.takeLog()
 	if err != nil {
-		return loadResult{stage: "load-error", detail: err.Error(), normalized: printed, calls: calls}
+		return loadResult{stage: "load-error", detail: err.Error(), normalized: p.printed, calls: calls}
 	}
-	return loadResult{stage: "ok", out: out, normalized: printed, calls: calls}
+	return loadResult{stage: "ok", out: out, normalized: p.printed, calls: calls}
+}
+
+// loadScoped: one Load of ds in the given world; the RPCs of this Load are recorded in its own
+// scope (carried by the context), so concurrent Loads do not mix their records.
+func (r *rig) loadScoped(ds *grpcdatasource.DataSource, p *prepared, vars string, w *world) (res loadResult) {
+	sc := &loadScope{w: w}
+	defer func() {
+		if pv := recover(); pv != nil {
+			st := string(debug.Stack())
+			res = loadResult{stage: "panic", detail: fmt.Sprint(pv), panicStack: st, normalized: p.printed, calls: sc.take()}
+		}
+	}()
+	out, err := ds.Load(withScope(context.Background(), sc), nil, loadInput(p.printed, vars))
+	calls := sc.take()
+	if err != nil {
+		return loadResult{stage: "load-error", detail: err.Error(), normalized: p.printed, calls: calls}
+	}
+	return loadResult{stage: "ok", out: out, normalized: p.printed, calls: calls}
 }
 
 func jsonMarshalString(s string) (string, error) {
